@@ -554,7 +554,97 @@ func init() {
 		}
 		return fmt.Sprintf("status=%d mode=%s %s", res.StatusCode, rq.GRPCMode, verdict)
 	}
+	// schema_ext <n>: a proto2 schema with an extension field that exists only as descriptors (loaded
+	// the way a descriptor set is): a proto client in front of a JSON-only backend; the extension field
+	// set by the client must be in the backend's JSON, the one set by the backend in the client's proto
+	executors["schema_ext"] = func(a []string) string {
+		defer func() { _ = recover() }()
+		ext := extSchema()
+		item := ext.file.Messages().ByName("Item")
+		types := dynamicpb.NewTypes(extFiles(ext.file))
+		xt, err := types.FindExtensionByName("verif.ext.tag")
+		if err != nil {
+			return "setup-error " + err.Error()
+		}
+		reqMsg := dynamicpb.NewMessage(item)
+		reqMsg.Set(item.Fields().ByName("name"), protoreflect.ValueOfString("n"+a[0]))
+		reqMsg.Set(xt.TypeDescriptor(), protoreflect.ValueOfString("t"+a[0]))
+		body, _ := proto.Marshal(reqMsg)
+		var backendJSON []byte
+		backend := http.HandlerFunc(func(w http.ResponseWriter, r *http.Request) {
+			backendJSON, _ = io.ReadAll(r.Body)
+			w.Header().Set("Content-Type", "application/json")
+			_, _ = w.Write([]byte(`{"name":"r` + a[0] + `","[verif.ext.tag]":"x` + a[0] + `"}`))
+		})
+		t, err := vanguard.NewTranscoder([]*vanguard.Service{vanguard.NewServiceWithSchema(ext.svc, backend,
+			vanguard.WithTargetProtocols(vanguard.ProtocolConnect), vanguard.WithTargetCodecs("json"), vanguard.WithNoTargetCompression())})
+		if err != nil {
+			return "config-rejected " + err.Error()
+		}
+		req := httptest.NewRequest("POST", "http://example.test/verif.ext.ExtSvc/Echo", bytes.NewReader(body))
+		req.Header.Set("Content-Type", "application/proto")
+		req.Header.Set("Connect-Protocol-Version", "1")
+		rec := httptest.NewRecorder()
+		t.ServeHTTP(rec, req)
+		reqExt := strings.Contains(string(backendJSON), `"[verif.ext.tag]":"t`+a[0]+`"`)
+		respMsg := dynamicpb.NewMessage(item)
+		respExt := false
+		if rec.Code == 200 {
+			if err := (proto.UnmarshalOptions{Resolver: types}).Unmarshal(rec.Body.Bytes(), respMsg); err == nil {
+				respExt = respMsg.Has(xt.TypeDescriptor()) && respMsg.Get(xt.TypeDescriptor()).String() == "x"+a[0]
+			}
+		}
+		return fmt.Sprintf("status=%d req-ext=%v resp-ext=%v", rec.Code, reqExt, respExt)
+	}
 	streams["schema"] = streamSchema
+}
+
+type extSchemaT struct {
+	file protoreflect.FileDescriptor
+	svc  protoreflect.ServiceDescriptor
+}
+
+var extSchemaOnce *extSchemaT
+
+func extFiles(f protoreflect.FileDescriptor) *protoregistry.Files {
+	files := new(protoregistry.Files)
+	_ = files.RegisterFile(f)
+	return files
+}
+
+// extSchema builds, from a descriptor proto only, the file
+//
+//	syntax = "proto2"; package verif.ext;
+//	message Item { optional string name = 1; extensions 100 to 199; }
+//	extend Item { optional string tag = 100; }
+//	service ExtSvc { rpc Echo(Item) returns (Item); }
+func extSchema() *extSchemaT {
+	if extSchemaOnce != nil {
+		return extSchemaOnce
+	}
+	str := func(s string) *string { return &s }
+	i32 := func(i int32) *int32 { return &i }
+	opt := descriptorpb.FieldDescriptorProto_LABEL_OPTIONAL
+	tstr := descriptorpb.FieldDescriptorProto_TYPE_STRING
+	fdp := &descriptorpb.FileDescriptorProto{
+		Name: str("verif/ext.proto"), Package: str("verif.ext"), Syntax: str("proto2"),
+		MessageType: []*descriptorpb.DescriptorProto{{
+			Name:           str("Item"),
+			Field:          []*descriptorpb.FieldDescriptorProto{{Name: str("name"), Number: i32(1), Label: &opt, Type: &tstr, JsonName: str("name")}},
+			ExtensionRange: []*descriptorpb.DescriptorProto_ExtensionRange{{Start: i32(100), End: i32(200)}},
+		}},
+		Extension: []*descriptorpb.FieldDescriptorProto{{Name: str("tag"), Number: i32(100), Label: &opt, Type: &tstr, Extendee: str(".verif.ext.Item"), JsonName: str("tag")}},
+		Service: []*descriptorpb.ServiceDescriptorProto{{
+			Name:   str("ExtSvc"),
+			Method: []*descriptorpb.MethodDescriptorProto{{Name: str("Echo"), InputType: str(".verif.ext.Item"), OutputType: str(".verif.ext.Item")}},
+		}},
+	}
+	file, err := protodesc.NewFile(fdp, new(protoregistry.Files))
+	if err != nil {
+		panic(err)
+	}
+	extSchemaOnce = &extSchemaT{file: file, svc: file.Services().ByName("ExtSvc")}
+	return extSchemaOnce
 }
 
 var schemaGRPC *struct {
@@ -637,6 +727,10 @@ func streamSchema(e *Emitter, rng *rand.Rand, tier string) {
 		panic("dynamic-options route does not produce dynamic option values")
 	}
 	e.Emit("schema_grpc -")
+	for k := 0; k < 5; k++ {
+		e.Class("schema:proto2-extension")
+		e.Emit(fmt.Sprintf("schema_ext %d", k))
+	}
 	// tables: the annotated schema alone, then with additional WithRules bindings
 	probePool := [][2]string{{"GET", "/v1/shelves/1/books/2"}, {"POST", "/v1/shelves/1/books"}, {"GET", "/v1/shelves/1/books"}, {"POST", "/v1/shelves"},
 		{"PATCH", "/v1/shelves/1/books/3"}, {"DELETE", "/v1/shelves/1/books/3"}, {"GET", "/v2/shelves/4/books:search"}, {"POST", "/v2/shelves/4/books:move"},
